@@ -111,7 +111,7 @@ def regen():
     """Run the translators against REPO's working tree.  Returns the merged summary."""
     with Lock('regen'):
         summ = {}
-        for tr in ('tr_poses.py', 'tr_edges.py'):
+        for tr in ('tr_poses.py', 'tr_edges.py', 'tr_effects.py'):
             tp = os.path.join(VERIF, 'tools', tr)
             if not os.path.exists(tp):
                 continue
